@@ -41,7 +41,7 @@ func checkC12(c *Ctx) {
 		"(K2) the only results replaced by nil / not appended are nil or context.Canceled ones, a Canceled error is filtered before errors.Join, and the value returned is that errors.Join; " +
 		"(K3) in RunnerCloserManager.Run every closer goroutine is started after the inner manager's result was obtained, one per element of `closers`, each calling its element once and sending its result once; results collected = goroutines started (1+len(closers)); every collected result is stored into the slice given to errors.Join; `closers` is read (loop bounds) under mngr.lock and `closing` is set before that lock section is left, every write of `closers` is under that lock, AddCloser observes closing == false inside the same lock section as its append, and every value AddCloser stores is the registered function, its bound Close method, or a wrapper calling it exactly once and returning its error; " +
 		"(K4) close(stopped) happens only on the success edge of the test-and-set of `running` (Run: deferred, after retErr was stored; Close: before waiting), Close waits for `stopped` before reading retErr and returns it, Run returns the value stored in retErr; close(closeCh) is guarded by a test-and-set; Run registers, before starting the inner manager, a runner that returns on closeCh or ctx.Done; " +
-		"(K5) fatalShutdownFn is called only, and always, on the timer case of a select that also waits for closeFatalShutdown, the timer runs for *gracePeriod, the fatal closer is registered iff gracePeriod != nil, and closeFatalShutdown is closed exactly when len(closers)-1 results have been collected. " +
+		"(K5) fatalShutdownFn is called only, and always, on the timer case of a select that also waits for closeFatalShutdown, the timer runs for *gracePeriod, the fatal closer is registered iff gracePeriod != nil, and closeFatalShutdown is closed exactly once, at the program point where len(closers)-1 closer results have been collected and before the next receive (counted relative to the receive of the same iteration), in an iteration that also exists when the fatal closer is the only closer. " +
 		"NOT decided: behaviour over all completion orders and timings as such (that the Go scheduler/channel semantics deliver what the shapes promise), panics inside runners or closers, data-race freedom of RunnerManager.Run's unlocked reads of `runners` against a concurrent Add (outside the statement's quantifier; printed as NOTE), liveness of user-supplied runners/closers."
 	r.Assumptions = append(r.Assumptions,
 		"context.WithCancel, errors.Join, errors.Is, sync/atomic.Bool and channel operations behave as documented",
@@ -63,7 +63,7 @@ func checkC12(c *Ctx) {
 	r.Rule("C12.K4-stopped", "close(stopped) only after winning running; Run stores retErr before it; Close waits before reading retErr", 5)
 	r.Rule("C12.K4-closech", "close(closeCh) guarded by a test-and-set; Run registers a runner returning on closeCh / ctx.Done before starting the inner manager", 2)
 	r.Rule("C12.K4-chans", "the constructor creates stopped, closeCh and closeFatalShutdown", 3)
-	r.Rule("C12.K5-fatal", "fatalShutdownFn fires exactly on the grace timer case; closeFatalShutdown closed when only the fatal closer remains", 3)
+	r.Rule("C12.K5-fatal", "fatalShutdownFn fires exactly on the grace timer case; closeFatalShutdown closed when only the fatal closer remains, before the receive that waits for it (also when it is the only closer)", 3)
 
 	x.checkOnce()
 	x.checkRunnerRun()
